@@ -62,6 +62,10 @@ def step (st : St) (args : List String) : St × String :=
       let req := match (flag rest "cut").bind String.toNat? with
         | some k => req.take k
         | none => req
+      -- a stalled client: the daemon gets a prefix and, after its I/O timeout, drops the connection
+      let req := match (flag rest "stall").bind String.toNat? with
+        | some k => req.take k
+        | none => req
       let env : Env := { now := st.now, peer := st.peer, rnd := st.rnd,
                          member := fun u g => st.mem.contains (u, g) }
       let (rsp, rs') := jobExec ToyPrims.prims st.cf env st.rs req sendOk
